@@ -582,8 +582,10 @@ def streamToRes {α} (s : Stream α) : Res (List α) :=
 
 def mkFilterEager (f : Val → Res Bool) (d : DS) : Res DS := do
   if !d.indexable then throw .runtimeError
-  let vs ← streamToRes d.iter
-  let idx ← filterIdx f vs 0
+  -- `[i for i, e in enumerate(self) if filter_fn(e)]`: the predicate runs on each example as it is
+  -- yielded, so a predicate error on a yielded example comes before the error that ends the stream
+  let idx ← filterIdx f d.iter.vals 0
+  let _ ← streamToRes d.iter
   let _ ← d.len                              -- `if len(self) > len(idx)` (logging only)
   mkSlice (.idx (idx.map Int.ofNat)) d
 
@@ -663,8 +665,9 @@ def mkSort (keyFn : Option (Val → Res Val)) (reverse : Bool) (d : DS) : Res DS
       -- after the fix of F7: `sort_fn(keys, reverse=reverse)`
       mkSlice (.keys (sortKeys ks reverse)) d
   | some f => do
-    let vs ← streamToRes d.iter
-    let kv ← vs.mapM f
+    -- `[key_fn(example) for example in self]`: a key error on a yielded example comes first
+    let kv ← d.iter.vals.mapM f
+    let _ ← streamToRes d.iter
     match asInts kv with
     | some is => mkSlice (.idx ((sortOrderBy intLt is reverse).map Int.ofNat)) d
     | none =>
